@@ -91,9 +91,6 @@ M = [
      "    } else if a.is_number() || b.is_number() {\n        Ok(a == &f64::try_from(b)?)\n    } else if a.is_bool() || b.is_bool() {\n        Ok(a == &bool::try_from(b)?)", "R09-3"),
     ("C09", "ge-node-swapped", "xpath/src/eval/mod.rs",
      "            model::Value::Node(nodes) => less_eq_node(b, nodes),\n            _ => Ok(f64::try_from(a)? >= f64::try_from(b)?),", "            model::Value::Node(nodes) => greater_eq_node(b, nodes),\n            _ => Ok(f64::try_from(a)? >= f64::try_from(b)?),", "R09-3"),
-    ("C10", "equal-qname-compares-prefix", "xpath/src/eval/mod.rs",
-     "    if let Some((local_part_a, _, uri_a)) = node.as_expanded_name()? {\n        let (local_part_b, _, uri_b) = context.expanded_name(qname)?;\n        Ok(local_part_a == local_part_b && uri_a == uri_b)",
-     "    if let Some((local_part_a, prefix_a, uri_a)) = node.as_expanded_name()? {\n        let (local_part_b, prefix_b, uri_b) = context.expanded_name(qname)?;\n        Ok(local_part_a == local_part_b && uri_a == uri_b && (prefix_a.is_none() || prefix_b.is_none() || true))", "C10-1"),
     ("C10", "no-implicit-xml", "info/src/lib.rs",
      "                let implicity = XmlNamespace::xml(self.context());\n                if !items", "                let implicity = XmlNamespace::xml(self.context());\n                if false && !items", None),
     ("C10", "keep-empty-namespaces", "info/src/lib.rs",
@@ -115,8 +112,8 @@ M = [
      "                .element\n                .borrow()\n                .insert_before(new_child.try_into()?, r.id())\n            {\n                Ok(v) => Ok(v),\n                Err(xml_info::error::Error::OufOfIndex(_)) => Err(error::DomException::NotFoundErr),",
      "                .element\n                .borrow()\n                .insert_before(new_child.try_into()?, r.id())\n            {\n                Ok(v) => Ok(v),\n                Err(xml_info::error::Error::OufOfIndex(_)) => Err(error::DomException::HierarchyRequestErr),", "R13-3"),
     ("C13", "wrong-doc-test-after-delete", "dom/src/lib.rs",
-     "    fn remove_child(&self, old_child: &XmlNode) -> error::Result<XmlNode> {\n        if self.owner_document() != old_child.owner_document() {\n            return Err(error::DomException::WrongDocumentErr)?;\n        }\n\n        match self.element.borrow().delete(old_child.id()) {\n            Some(v) => Ok(XmlNode::from(v)),\n            _ => Err(error::DomException::NotFoundErr)?,\n        }",
-     "    fn remove_child(&self, old_child: &XmlNode) -> error::Result<XmlNode> {\n        let removed = self.element.borrow().delete(old_child.id());\n        if self.owner_document() != old_child.owner_document() {\n            return Err(error::DomException::WrongDocumentErr)?;\n        }\n\n        match removed {\n            Some(v) => Ok(XmlNode::from(v)),\n            _ => Err(error::DomException::NotFoundErr)?,\n        }", "R13-2"),
+     "    fn remove_child(&self, old_child: &XmlNode) -> error::Result<XmlNode> {\n        if !same_document(&Some(self.clone()), &old_child.owner_document()) {\n            return Err(error::DomException::WrongDocumentErr)?;\n        }\n\n        match self.document.borrow().delete(old_child.id()) {\n            Some(v) => Ok(XmlNode::from(v)),\n            _ => Err(error::DomException::NotFoundErr)?,\n        }",
+     "    fn remove_child(&self, old_child: &XmlNode) -> error::Result<XmlNode> {\n        let removed = self.document.borrow().delete(old_child.id());\n        if !same_document(&Some(self.clone()), &old_child.owner_document()) {\n            return Err(error::DomException::WrongDocumentErr)?;\n        }\n\n        match removed {\n            Some(v) => Ok(XmlNode::from(v)),\n            _ => Err(error::DomException::NotFoundErr)?,\n        }", "R13-2"),
     ("C14", "insert-after-index-minus-one", "info/src/lib.rs",
      "            self.order.insert(order, Rc::downgrade(info));", "            self.order.insert(order - 1, Rc::downgrade(info));", "C14-4"),
     ("C14", "delete-keeps-order", "info/src/lib.rs",
